@@ -268,6 +268,39 @@ func runC05RealtimeSlowSend(c *fw.Ctx, id string, v refmatch.Variant) {
 	}
 }
 
+// objectReuseCases: one protocol object, three runs, the capture filter of each run enforced (used by C06 and C12).
+func objectReuseCases(prop string) []fw.Case {
+	var cases []fw.Case
+	for _, vn := range []string{"syn", "synP", "synPR", "udp4", "udp6"} {
+		for _, t16 := range []bool{false, true} {
+			vn, t16 := vn, t16
+			if t16 && vn == "udp6" {
+				continue
+			}
+			id := fmt.Sprintf("%s/object-reuse/%s/target16-%v", prop, vn, t16)
+			cases = append(cases, fw.Case{ID: id, Bubble: true, Run: func(c *fw.Ctx) {
+				v := refmatch.VariantByName(vn)
+				var obj any
+				for k := 0; k < 3; k++ {
+					w := window{1, 6}
+					sc := scenario{tag: fmt.Sprintf("%s run %d on the same object", id, k+1), v: v, win: w, b: basesQuick[0], mode: simnet.FilterEnforce,
+						spec:  func(s *drive.Spec) { s.Obj, s.Target16 = &obj, t16 },
+						model: func(e *simEnv) *pathModel { return simplePathWin(v, w, 4, true, 7*time.Millisecond) }}
+					out := runScenario(c, sc)
+					if out == nil {
+						return
+					}
+					if out.res.Err == nil && len(out.flow.Probes) >= 2 {
+						c.Nontrivial(fmt.Sprintf("object-reuse/%s/t16%v/run%d", vn, t16, k+1))
+					}
+					out.e.close()
+				}
+			}})
+		}
+	}
+	return cases
+}
+
 // simplePathWin: routers at every TTL of the window below dist, destination at dist (if reach).
 func simplePathWin(v refmatch.Variant, w window, dist int, reach bool, base time.Duration) *pathModel {
 	m := &pathModel{hops: map[int]*hopSpec{}}
@@ -662,6 +695,10 @@ func checkC06() fw.Check {
 					}
 				}
 			}
+			// one protocol object, several runs (a library caller that keeps its *tcp.TCPv4 / *udp.UDPv4 around): every run
+			// reserves its own source port and installs its own filter - probes, filter and reported endpoints of run k are
+			// all run k's. And the IPv4 target handed over in its 16-byte form (what net.ParseIP returns).
+			cases = append(cases, objectReuseCases("C06")...)
 			// whole requests: the endpoints reported by RunTraceroute vs the wire, with the port omitted (documented
 			// default) and given, both families
 			for _, proto := range []string{"udp", "tcp", "icmp"} {
